@@ -299,11 +299,23 @@ def unmatched_cells(idx, rep, rid):
     back as ''), so the projection of a short unmatched line under collect() must fill a missing cell with text, not with None.
     Decided on the functions that put lines into CsvPath.unmatched: every one is interpreted on a short and on a blank line."""
     fn = idx.method("CsvPath", "next")
-    names = sorted({call_name(c) for n in ast.walk(fn.node) if isinstance(n, ast.Call) and call_name(n) == "append" and "unmatched" in unparse(n.func)
-                    for c in ast.walk(n) if isinstance(c, ast.Call) and call_name(c) not in ("append",)} |
-                   {call_name(a.value) for a in ast.walk(fn.node) if isinstance(a, ast.Assign) and isinstance(a.value, ast.Call) and (K.call_receiver(a.value) or "") == "self"
-                    and any(isinstance(n, ast.Call) and call_name(n) == "append" and "unmatched" in unparse(n.func) for n in ast.walk(fn.node))
-                    and call_name(a.value) in ("limit_collection", "_limit_unmatched")})
+    # the projection functions whose result is appended to self.unmatched, wherever in CsvPath that happens (the step may live in a helper)
+    names = set()
+    for m in idx.cls("CsvPath").methods.values():
+        appends = [n for n in ast.walk(m.node) if isinstance(n, ast.Call) and call_name(n) == "append" and "unmatched" in unparse(n.func)]
+        if not appends:
+            continue
+        for n in appends:
+            for c in ast.walk(n):
+                if isinstance(c, ast.Call) and c is not n and (K.call_receiver(c) or "") == "self":
+                    names.add(call_name(c))
+            for arg in n.args:
+                if isinstance(arg, ast.Name):
+                    for a_ in ast.walk(m.node):
+                        if isinstance(a_, ast.Assign) and any(isinstance(t, ast.Name) and t.id == arg.id for t in a_.targets) and isinstance(a_.value, ast.Call) \
+                                and (K.call_receiver(a_.value) or "") == "self":
+                            names.add(call_name(a_.value))
+    names = sorted(names)
     names = [n for n in names if n and idx.has_method("CsvPath", n)]
     bad = None
     for nm in names:
